@@ -16,7 +16,9 @@ import (
 	"github.com/cgi-fr/jsonline/pkg/jsonline"
 )
 
-var c06Alphabet = []string{"", "a", "ab", "b", "é", "a.b", "zz"}
+// (the last two hold a backslash: one is the TEXT of the JSON escaping of "ab", the other reads as a tab when a writer
+// forgets to escape the backslash)
+var c06Alphabet = []string{"", "a", "ab", "b", "é", "a.b", "zz", "a\\u0062", "C:\\temp"}
 
 type c06op struct {
 	kind string // set setat setv setvat iak iai islice imap um
@@ -123,6 +125,9 @@ func c06randomOp(r *rng) c06op {
 	vals := c06values()
 	cells := c06cells()
 	keys := c06Alphabet[:6]
+	if r.chance(1, 6) {
+		keys = c06Alphabet[2:]
+	}
 	switch r.intn(10) {
 	case 9:
 		if r.chance(1, 3) {
